@@ -107,6 +107,7 @@ fn candles() -> Vec<In> {
 
 fn main() {
 	refmodel::set_eps(eps());
+	refmodel::set_floor(ValueType::MIN_POSITIVE as f64);
 	let mut h = H::start("C02");
 	let thorough = h.thorough();
 	if let Err(e) = registry_complete() {
